@@ -327,3 +327,105 @@ Section NMProofs.
     apply nm_best_evaluated; auto. apply nm_run_ok; auto.
   Qed.
 End NMProofs.
+
+(* the best never gets worse: a Step on a simplex with at least two vertices reports a best energy that is not above the previous
+   one - for every candidate stream, argsort answer (the model accepts only sorting permutations), cost and constraints *)
+Section NMOrder.
+  Variable N : Num.
+  Variable inf : T N.
+  Notation E := (T N).
+  Notation vec := (vec N).
+  Notation sys := (sys N).
+  Notation nm := (nm N).
+  Hypothesis Hord : StrictWeak E (ltb N).
+
+  Lemma count_in i : forall p, count_nat i p <> O -> In i p.
+  Proof.
+    induction p as [|j p IH]; simpl; [congruence|].
+    destruct (Nat.eqb i j) eqn:Ei; [apply Nat.eqb_eq in Ei; auto|auto].
+  Qed.
+
+  Lemma is_perm_in p n i : is_perm p n = true -> (i < n)%nat -> In i p.
+  Proof.
+    unfold is_perm. intros H Hi. apply andb_true_iff in H as [_ H].
+    rewrite forallb_forall in H. specialize (H i). rewrite in_seq in H.
+    assert (Hc : Nat.eqb (count_nat i p) 1 = true) by (apply H; lia).
+    apply Nat.eqb_eq in Hc. apply count_in. lia.
+  Qed.
+
+  Lemma sorted_head_min : forall (r : list (vec * E)) a, sorted_e N (a :: r) = true ->
+    Forall (fun b => ltb N (snd b) (snd a) = false) r.
+  Proof.
+    induction r as [|b r IH]; intros a H; [constructor|].
+    cbn [sorted_e] in H. apply andb_true_iff in H as [Hab Hr]. apply negb_true_iff in Hab.
+    constructor; [exact Hab|].
+    specialize (IH b Hr). eapply Forall_impl; [|exact IH]. intros c Hcb. cbv beta in Hcb.
+    eapply (sw_negtrans E (ltb N) Hord); eauto.
+  Qed.
+
+  (* the energy of the best vertex after `finish` is not above any energy of the list that was sorted *)
+  Definition not_worse (f0 : E) (r : sys * (nm * list (vec * E))) : Prop :=
+    sim N (fst (snd r)) = [] \/ ltb N f0 (snd (nm_best N inf (fst (snd r)))) = false.
+
+  Lemma finish_min s p l x f0 : In (x, f0) l -> not_worse f0 (run_prog inf true s (finish N inf p l)).
+  Proof.
+    intros Hin. unfold finish, not_worse.
+    destruct (valid_perm N inf p l) eqn:Hv; [|left; reflexivity].
+    unfold valid_perm in Hv. apply andb_true_iff in Hv as [Hp Hs].
+    destruct (apply_perm N inf p l) as [|[y0 g0] r] eqn:Ea; [left; reflexivity|].
+    cbn [run_prog fst snd sim fsim map nm_best hd]. right.
+    (* (x, f0) occurs in the permuted list *)
+    destruct (In_nth l (x, f0) ([], inf) Hin) as (i & Hi & Hn).
+    assert (Hq : In (x, f0) (apply_perm N inf p l)).
+    { unfold apply_perm. apply in_map_iff. exists i. split; [exact Hn|]. eapply is_perm_in; eauto. }
+    rewrite Ea in Hq. destruct Hq as [Hq|Hq].
+    - injection Hq as _ Hq. subst g0. apply (sw_irrefl E (ltb N) Hord).
+    - pose proof (sorted_head_min r (y0, g0) Hs) as Hm. rewrite Forall_forall in Hm. exact (Hm _ Hq).
+  Qed.
+
+  Lemma bind_run_t' R R' (p : prog N R) (f : R -> prog N R') : forall s0,
+    run_prog inf true s0 (bind p f) =
+    run_prog inf true (fst (run_prog inf true s0 p)) (f (snd (run_prog inf true s0 p))).
+  Proof. induction p as [r|x k IHp|x k IHp]; intros s0; simpl; auto. Qed.
+
+  Lemma evalc_nw f0 s ip x k :
+    (forall s1 x' e, not_worse f0 (run_prog inf true s1 (k x' e))) ->
+    not_worse f0 (run_prog inf true s (evalc N ip x k)).
+  Proof. intros Hk. unfold evalc. cbn [run_prog]. destruct ip; cbn [run_prog]; apply Hk. Qed.
+
+  Lemma in_replace_last (l : list (vec * E)) a b p : In a (replace_last N (a :: b :: l) p).
+  Proof. unfold replace_last. cbn [removelast]. left. reflexivity. Qed.
+
+  Theorem nm_best_never_worse s c i :
+    stepmon N s <> [] -> (2 <= length (combine (sim N c) (fsim N c)))%nat ->
+    not_worse (snd (nm_best N inf c)) (run_prog inf true s (nm_step N inf s c i)).
+  Proof.
+    intros Hsm Hlen. unfold nm_step. cbv zeta.
+    destruct (stepmon N s) as [|sm0 smr]; [congruence|].
+    destruct (combine (sim N c) (fsim N c)) as [|[x0 f0] [|v1 rest]] eqn:El; try (simpl in Hlen; lia).
+    assert (Ef : snd (nm_best N inf c) = f0 /\ hd [] (sim N c) = x0).
+    { unfold nm_best. destruct (sim N c) as [|a sr]; [discriminate|]. destruct (fsim N c) as [|b fr]; [discriminate|].
+      cbn [combine] in El. injection El as -> -> _. split; reflexivity. }
+    destruct Ef as [Ef Ex]. rewrite Ef.
+    destruct (Nat.pred (length (sm0 :: smr))).
+    - (* generation 1 *)
+      rewrite bind_run_t'. rewrite Ex.
+      assert (Eh : hd inf (fsim N c) = f0).
+      { destruct (sim N c) as [|a sr]; [discriminate|]. destruct (fsim N c) as [|b fr]; [discriminate|]. cbn [combine] in El. now injection El as _ -> _. }
+      rewrite Eh. eapply finish_min. left. reflexivity.
+    - cbn [run_prog].
+      set (x0c := u_cons N s x0).
+      assert (Hshrink : forall s1, not_worse f0 (run_prog inf true s1
+                (bind (evalc_all N (inpl N i) (firstn (length (v1 :: rest)) (skipn 2 (cands N i))))
+                      (fun vs => finish N inf (perm N i) ((x0c, f0) :: vs))))).
+      { intros s1. rewrite bind_run_t'. eapply finish_min. left. reflexivity. }
+      apply evalc_nw. intros s1 xr' fxr.
+      destruct (ltb N fxr f0).
+      { apply evalc_nw. intros s2 x1' fxe. destruct (ltb N fxe fxr); eapply finish_min; apply in_replace_last. }
+      destruct (ltb N fxr _).
+      { eapply finish_min; apply in_replace_last. }
+      destruct (ltb N fxr _).
+      { apply evalc_nw. intros s2 x1' fxc. destruct (Num.leb N fxc fxr); [eapply finish_min; apply in_replace_last|apply Hshrink]. }
+      { apply evalc_nw. intros s2 x1' fxcc. destruct (ltb N fxcc _); [eapply finish_min; apply in_replace_last|apply Hshrink]. }
+  Qed.
+End NMOrder.
